@@ -5,8 +5,18 @@ C13 — Show() redraws only cells whose appearance changed; locked cells never. 
 one is addressed to.  Same domain as C01: every history, size, coordinate, rune and style; terminal
 descriptions without the bottom-right insert-character trick (on those four entries the trick deliberately
 repaints the neighbour of the corner cell — the property's own exception — and is not covered here).
+
+Two variants of drawCell are modelled (`DrawCfg.guardLocked`, default `Tcell.currentGuardsLockedNeighbour`):
+* `guardLocked = false` — the pinned tree.  The four history theorems below (`hct : c.Plain`) are proved for it; the locked
+  clause of the property is *false* for it (`wide_left_of_locked_overpaints`, finding C13-wide-left-of-locked).
+* `guardLocked = true` — the tree repaired by fixes/C13-wide-left-of-locked.patch.  For it `locked_never_painted_partial`
+  is proved for every history (indeed from every state) and the witness is refuted (`wide_left_of_locked_kept_repaired`,
+  `unlock_repaints_wide_repaired`); the Layer-A invariant (`show_writes_only_dirty_partial`, `idle_show…`, C01's
+  `show_faithful_partial`) has NOT been carried over to this variant yet — what it has to say there is written down in
+  `Tcell.Props.C13.DisplaysRepairedCell`.
 -/
 import Tcell.Lemmas.World
+import Tcell.Lemmas.LockGuard
 import Tcell.Props.C01
 namespace Tcell.Props.C13
 open Tcell Tcell.Buf
@@ -18,7 +28,7 @@ receives payload was reported Dirty by the cell buffer when the Show began (and 
 is not the hidden half of a wide rune).  By C08 (`dirty_sound` and the explicit dirtying rules) a cell is Dirty
 only if its rune, combining runes or style differ from what they were when it was last painted, or it lies in
 the columns covered or uncovered by a changed wide rune, or it was invalidated / unlocked. -/
-theorem show_writes_only_dirty_partial (hrw : RwOk c.rw) (hct : c.cornerTrick = false) (w h : Int) (ops : List ScrOp)
+theorem show_writes_only_dirty_partial (hrw : RwOk c.rw) (hct : c.Plain) (w h : Int) (ops : List ScrOp)
     (hv : ∀ op ∈ ops, op.Valid c) :
     let wd := (World.init w h).run c ops
     wd.trusted = true → (wd.sw.ttyw = wd.sw.s.w ∧ wd.sw.ttyh = wd.sw.s.h) →
@@ -27,7 +37,7 @@ theorem show_writes_only_dirty_partial (hrw : RwOk c.rw) (hct : c.cornerTrick = 
   fun ht hsz => show_writes hrw hct (reach_inv hrw hct w h ops hv) ht hsz
 
 /-- **Locked cells are never addressed.** No payload is sent to a cell that is locked when the Show begins. -/
-theorem locked_never_addressed_partial (hrw : RwOk c.rw) (hct : c.cornerTrick = false) (w h : Int) (ops : List ScrOp)
+theorem locked_never_addressed_partial (hrw : RwOk c.rw) (hct : c.Plain) (w h : Int) (ops : List ScrOp)
     (hv : ∀ op ∈ ops, op.Valid c) :
     let wd := (World.init w h).run c ops
     wd.trusted = true → (wd.sw.ttyw = wd.sw.s.w ∧ wd.sw.ttyh = wd.sw.s.h) →
@@ -45,7 +55,7 @@ theorem locked_never_addressed_partial (hrw : RwOk c.rw) (hct : c.cornerTrick = 
 
 /-- **An idle Show writes nothing.** A Show immediately following a Show (no content change, no resize, no
 corruption in between) sends no cell payload at all. -/
-theorem idle_show_writes_nothing_partial (hrw : RwOk c.rw) (hct : c.cornerTrick = false) (w h : Int) (ops : List ScrOp)
+theorem idle_show_writes_nothing_partial (hrw : RwOk c.rw) (hct : c.Plain) (w h : Int) (ops : List ScrOp)
     (hv : ∀ op ∈ ops, op.Valid c) :
     let wd := (World.init w h).run c ops
     (wd.trusted = true ∨ ¬ (wd.sw.ttyw = wd.sw.s.w ∧ wd.sw.ttyh = wd.sw.s.h)) →
@@ -85,7 +95,7 @@ theorem idle_show_writes_nothing_partial (hrw : RwOk c.rw) (hct : c.cornerTrick 
 
 /-- **A cell is repainted by the first Show after it is unlocked** (and more generally after anything made it
 dirty): this is C01's `show_faithful_partial` — after that Show the cell is clean and displays its content. -/
-theorem unlock_repaints_partial (hrw : RwOk c.rw) (hct : c.cornerTrick = false) (w h : Int) (ops : List ScrOp)
+theorem unlock_repaints_partial (hrw : RwOk c.rw) (hct : c.Plain) (w h : Int) (ops : List ScrOp)
     (hv : ∀ op ∈ ops, op.Valid c) (x y rw' rh : Int) :
     let wd := ((World.init w h).run c ops).step c (.lockRegion x y rw' rh false)
     wd.trusted = true → Displays c (wd.step c .show) := by
@@ -98,7 +108,7 @@ theorem unlock_repaints_partial (hrw : RwOk c.rw) (hct : c.cornerTrick = false) 
   simp only [World.run, List.foldl_append, List.foldl_cons, List.foldl_nil] at inv
   exact (show_step hrw hct inv).2 (Or.inl ht)
 
-/-! ### what is *not* true of the code as it is: a wide rune left of a locked cell paints over it
+/-! ### what is *not* true of the pinned code: a wide rune left of a locked cell paints over it
 
 The right half of a wide glyph drawn at column x lands on column x+1 even when that cell is locked: the
 terminal cell of the locked position changes although no payload is addressed to it.  Witness on the
@@ -108,9 +118,70 @@ def lockedOps : List ScrOp :=
   [.setContent 1 0 0x62 [] {}, .show, .lockRegion 1 0 1 1 true, .setContent 0 0 0x4e16 [] {}, .show]
 
 example : ((World.init 3 1).run C01.cfgDemo (lockedOps.take 2)).t.grid 1 0 = .shown [0x62] false {} := by decide +kernel
-/-- after the second Show the locked cell (1,0) no longer shows 'b': the wide rune's right half covers it -/
+/-- pinned drawCell (`C01.cfgDemo.guardLocked = false`): after the second Show the locked cell (1,0) no longer shows 'b':
+the wide rune's right half covers it -/
 theorem wide_left_of_locked_overpaints :
     (((World.init 3 1).run C01.cfgDemo lockedOps).sw.s.cells.cells 1 0).lock = true ∧
     ((World.init 3 1).run C01.cfgDemo lockedOps).t.grid 1 0 = .cont := by decide +kernel
+
+/-! ### the repaired drawCell (`guardLocked = true`, fixes/C13-wide-left-of-locked.patch) -/
+
+/-- the demo configuration with the locked-neighbour guard compiled in -/
+def cfgRepaired : DrawCfg := { C01.cfgDemo with guardLocked := true }
+
+/-- **No payload of a Show covers a locked cell** (repaired variant; every history, size, coordinate, rune, style; every
+terminal description without the corner trick).  `drawLog` lists, for the draw pass of this Show, every cell payload
+together with the cell the loop addresses it to and the number of columns it occupies (drawCell's return value).
+Every payload is addressed to a cell that is not locked when the pass begins, and a payload wider than one column is
+written only if the next column is not locked either — so, glyphs being at most two columns wide (`RwOk.le2`), no
+column a payload occupies is a locked cell: neither the addressed one (`locked_never_addressed_partial`) nor the right
+half of a wide glyph.  (`s` is the screen after Show's own resize step: when the window size changed, Resize has
+re-created every cell unlocked, cell.go:196.)
+`_partial`: (1) corner-trick entries excluded; (2) the log is at the level of the draw loop's own addressing — that the
+terminal's cursor is where the loop believes (invariant `PassInv.kcur`) is proved for the pinned variant only and is
+otherwise checked on every run by the correspondence and by the oracle's lock snapshots. -/
+theorem locked_never_painted_partial (hct : c.cornerTrick = false) (hg : c.guardLocked = true) (w h : Int) (ops : List ScrOp) :
+    let wd := (World.init w h).run c ops
+    let s := wd.sw.s.resize (some (wd.sw.ttyw, wd.sw.ttyh))
+    ∀ e ∈ s.drawLog c, s.cells.locked e.1 e.2.1 = false ∧ (e.2.2 > 1 → s.cells.locked (e.1 + 1) e.2.1 = false) :=
+  fun e he => drawLog_ok hct hg _ e he
+
+/-- the same from an arbitrary screen state (the history plays no role) -/
+theorem locked_never_painted_any_state (hct : c.cornerTrick = false) (hg : c.guardLocked = true) (s : Scr) :
+    ∀ e ∈ s.drawLog c, s.cells.locked e.1 e.2.1 = false ∧ (e.2.2 > 1 → s.cells.locked (e.1 + 1) e.2.1 = false) :=
+  fun e he => drawLog_ok hct hg s e he
+
+-- the log is not vacuous: on the witness history the last Show paints exactly cell (0,0) — two columns wide on the
+-- pinned tree (covering the locked (1,0)), one column wide on the repaired tree
+example : (((World.init 3 1).run C01.cfgDemo (lockedOps.take 4)).sw.s.drawLog C01.cfgDemo) = [(0, 0, 2)] := by decide +kernel
+example : (((World.init 3 1).run cfgRepaired (lockedOps.take 4)).sw.s.drawLog cfgRepaired) = [(0, 0, 1)] := by decide +kernel
+example : cfgRepaired.cornerTrick = false ∧ cfgRepaired.guardLocked = true := ⟨rfl, rfl⟩
+
+/-- repaired drawCell on the witness history: the locked cell (1,0) still shows 'b', the wide rune left of it is shown as
+a blank of width 1 (the policy of the last column) -/
+theorem wide_left_of_locked_kept_repaired :
+    (((World.init 3 1).run cfgRepaired lockedOps).sw.s.cells.cells 1 0).lock = true ∧
+    ((World.init 3 1).run cfgRepaired lockedOps).t.grid 1 0 = .shown [0x62] false {} ∧
+    ((World.init 3 1).run cfgRepaired lockedOps).t.grid 0 0 = .shown [32] false {} := by decide +kernel
+
+/-- … and the first Show after the cell is unlocked draws the wide rune again, two columns wide (LockRegion(…, false) of
+the repaired tree marks a wide rune just left of the region dirty, `Tcell.lockRowsG`) -/
+theorem unlock_repaints_wide_repaired :
+    ((World.init 3 1).run cfgRepaired (lockedOps ++ [.lockRegion 1 0 1 1 false, .show])).t.grid 0 0 =
+      .shown [0xe4, 0xb8, 0x96] true {} ∧
+    ((World.init 3 1).run cfgRepaired (lockedOps ++ [.lockRegion 1 0 1 1 false, .show])).t.grid 1 0 = .cont := by
+  decide +kernel
+
+/-- What C01's `Displays` has to say about a visited unlocked cell holding a wide rune on the repaired tree (not yet
+proved over histories; checked by the oracle of engine `draw`, tags `wide-left-of-locked-blank`): if the next column is
+not locked the cell shows the glyph two columns wide exactly as on the pinned tree; if the next column is locked it
+shows a blank of width 1 in the cell's style — or still the glyph, when it was painted before the neighbour was locked. -/
+def DisplaysRepairedCell (c : DrawCfg) (wd : World) (x y : Int) : Prop :=
+  let cell := wd.sw.s.cells.cells x y
+  ∃ st', (wd.t.grid x y = shownOf c wd.sw.s.w x cell.currMain cell.currComb st' ∨
+          (wd.sw.s.cells.locked (x + 1) y = true ∧ wd.t.grid x y = .shown [32] false st'))
+
+example : DisplaysRepairedCell cfgRepaired ((World.init 3 1).run cfgRepaired lockedOps) 0 0 :=
+  ⟨{}, Or.inr ⟨by decide +kernel, by decide +kernel⟩⟩
 
 end Tcell.Props.C13
